@@ -82,6 +82,7 @@ class UBase:
     def __init__(self):
         self.records = []  # (label, ok, show, known)
         self.substitutions = []
+        self._restore = []
         self._mods = {}
 
     # ---- calling the code under contract
@@ -111,8 +112,23 @@ class UBase:
 
     def substitute(self, mod, name, value, why):
         """bind `name` in the compiled module to a contract stub / model (reported in evidence)"""
+        # concrete mode works on the genuinely imported module, which the next unit run by this worker process sees as well:
+        # run_conc puts every substituted binding back (a stub left behind made a later unit's samples fail, depending on which
+        # worker happened to run what)
+        self._restore.append((mod, name, hasattr(mod, name), getattr(mod, name, None)))
         setattr(mod, name, value)
         self.substitutions.append("%s.%s := %s" % (mod.__name__, name, why))
+
+    def restore_substitutions(self):
+        while self._restore:
+            mod, name, had, old = self._restore.pop()
+            if had:
+                setattr(mod, name, old)
+            else:
+                try:
+                    delattr(mod, name)
+                except AttributeError:
+                    pass
 
     def cm(self, mod=None):
         return _CM(self.packer())
